@@ -2,7 +2,7 @@
 import ast
 import math
 
-from .. import coqrun, maskgen as G, py2gallina as pg
+from .. import coqrun, maskgen as G, py2gallina as pg, symex as X
 from ..core import Corr, Untranslatable, Violation
 
 ID = "C11"
@@ -18,86 +18,120 @@ TRUSTED_BASE = [
 ASSUMPTIONS = ["acs_mask is a subset of the sampling mask when keep_acs is on (C06)", "protected region no larger than the mask (non-negative slice bounds)"]
 RULE = "(splitter, direction, mask kind, ratio, protected region, keep_acs, batch, seed) through the real MaskSplitter modules; input/target compared exactly with the regenerated per-cell algebra applied to the fill routine's output; non-trivial = non-empty target and non-empty input; distinct by configuration"
 
-BOOL_OPS = {ast.BitAnd: "andb", ast.BitOr: "orb"}
+S = lambda n: ("sym", n)
+ME, MASK, ACS = S("self"), S("mask"), S("acs_mask")
+KEEP = ("attr", ME, "keep_acs")
+RATIO = ("call", ("attr", ME, "_choose_ratio"), (), ())
+_half = lambda ax: ("bin", "//", ("sub", ("attr", MASK, "shape"), X.const(ax)), X.const(2))
+_reg = lambda ax: ("bin", "//", ("sub", ("attr", ME, "acs_region"), X.const(ax)), X.const(2))
+REGION = ("tuple", tuple(("slice", ("bin", "-", _half(ax), _reg(ax)), ("bin", "+", _half(ax), _reg(ax)), X.NONE) for ax in (0, 1)))
 
 
-def bexpr(node, env, path):
-    key = ast.unparse(node)
-    if key in env:
-        return env[key]
-    if isinstance(node, ast.BinOp):
-        for k, nm in BOOL_OPS.items():
-            if isinstance(node.op, k):
-                return "(%s %s %s)" % (nm, bexpr(node.left, env, path), bexpr(node.right, env, path))
-    if isinstance(node, ast.UnaryOp) and isinstance(node.op, ast.Invert):
-        return "(negb %s)" % bexpr(node.operand, env, path)
-    raise Untranslatable("ssl: boolean expression outside subset: %s" % key[:70], getattr(node, "lineno", None), path)
+def deep(v):
+    """v without the wrappers that move or copy a tensor without changing its values (.clone(), .cpu(), .to(..), .numpy(),
+    .astype(int), torch.tensor(x, dtype=..)), and with slice(a, b) objects written as slices."""
+    if not isinstance(v, tuple):
+        return v
+    if v and v[0] == "call":
+        f = v[1]
+        if f[0] == "attr" and f[2] in ("clone", "cpu", "to", "numpy", "astype", "contiguous", "detach"):
+            return deep(f[1])
+        if f == ("attr", S("torch"), "tensor") and len(v[2]) == 1:
+            return deep(v[2][0])
+        if f == S("slice") and 1 <= len(v[2]) <= 3 and not v[3]:
+            a_ = [deep(x) for x in v[2]]
+            lo, hi, st = (X.NONE, a_[0], X.NONE) if len(a_) == 1 else (a_[0], a_[1], a_[2] if len(a_) == 3 else X.NONE)
+            return ("slice", lo, hi, st)
+    return tuple(deep(x) if isinstance(x, tuple) else x for x in v)
 
 
-REGION = "temp_mask[center_x - self.acs_region[0] // 2:center_x + self.acs_region[0] // 2, center_y - self.acs_region[1] // 2:center_y + self.acs_region[1] // 2] = False"
+def bexpr(v, leaves, path):
+    if v in leaves:
+        return leaves[v]
+    if v[0] == "bin" and v[1] in ("&", "|"):
+        return "(%s %s %s)" % ("andb" if v[1] == "&" else "orb", bexpr(v[2], leaves, path), bexpr(v[3], leaves, path))
+    if v[0] == "un" and v[1] == "~":
+        return "(negb %s)" % bexpr(v[2], leaves, path)
+    raise Untranslatable("ssl: boolean expression outside subset: %s" % X.show(v)[:90], None, path)
 
 
-def _split_common(fn, path, name):
-    """Per-cell expressions of a fill-based splitter. Returns dict of Coq strings + list of statement sources."""
-    body = pg.strip_doc(fn.body)
-    d = {}
-    srcs = [ast.unparse(s) for s in body]
-    # keep_acs: mask = mask & ~acs_mask
-    for s in body:
-        if isinstance(s, ast.If) and ast.unparse(s.test) == "self.keep_acs" and len(s.body) == 2 and isinstance(s.body[1], ast.Assign) and ast.unparse(s.body[1].targets[0]) == "mask":
-            d["minus_acs"] = bexpr(s.body[1].value, {"mask": "m", "acs_mask": "a"}, path)
-        if isinstance(s, ast.If) and ast.unparse(s.test) == "not self.keep_acs" and len(s.body) == 1:
-            if ast.unparse(s.body[0]) != REGION:
-                raise Untranslatable("%s: protected-region statement outside subset" % name, s.lineno, path)
-            d["region_cleared"] = "true"
-        if isinstance(s, ast.If) and ast.unparse(s.test) == "self.keep_acs" and len(s.body) == 1 and ast.unparse(s.body[0]).startswith("input_mask, target_mask = "):
-            tup = s.body[0].value
-            d["keep_in"] = bexpr(tup.elts[0], {"input_mask": "i", "acs_mask": "a"}, path)
-            d["keep_tg"] = bexpr(tup.elts[1], {"target_mask": "t", "acs_mask": "a"}, path)
-        if isinstance(s, ast.Assign) and ast.unparse(s.targets[0]) == "input_mask":
-            d["input"] = bexpr(s.value, {"mask": "m", "target_mask": "t"}, path)
+def _keep_of(conds, what, path):
+    k = [pol for c, pol in conds if c == KEEP]
+    if len(set(k)) != 1:
+        raise Untranslatable("%s: the path does not decide keep_acs" % what, None, path)
+    return k[0]
+
+
+def _fill_split(tree, path, qual, filler):
+    """A fill-based splitter, from the value trees of its paths: the pair it returns, the eligible mask and the count it
+    hands to the fill routine. Returns (dict of Coq strings, whether the count is capped by the eligible cells)."""
+    t, _n = X.run_function(tree, path, qual, opaque={"_choose_ratio"})
+    t = X.lift_ife(X.prune_raises(X.drop_do(t)))
+    d, caps = {}, set()
+    for conds, lf in X.leaves(t):
+        keep = _keep_of(conds, qual, path)
+        v = deep(lf[1])
+        if not (v[0] == "tuple" and len(v[1]) == 2):
+            raise Untranslatable("%s: does not return (input mask, target mask)" % qual, None, path)
+        inp, tgt = v[1]
+        m = ("bin", "&", MASK, ("un", "~", ACS)) if keep else MASK
+        if keep:
+            if not (inp[0] == "bin" and inp[1] == "|" and inp[3] == ACS and tgt[0] == "bin" and tgt[1] == "|" and tgt[3] == ACS):
+                raise Untranslatable("%s: with keep_acs the ACS is not added to both masks" % qual, None, path)
+            d["keep_in"] = bexpr(inp, {inp[2]: "i", ACS: "a"}, path)
+            d["keep_tg"] = bexpr(tgt, {tgt[2]: "t", ACS: "a"}, path)
+            inp, tgt = inp[2], tgt[2]
+            d["minus_acs"] = bexpr(m, {MASK: "m", ACS: "a"}, path)
+        if not (tgt[0] == "call" and tgt[1] == S(filler)):
+            raise Untranslatable("%s: the target mask is not what %s returns: %s" % (qual, filler, X.show(tgt)[:80]), None, path)
+        form = bexpr(inp, {m: "m", tgt: "t"}, path)
+        if d.setdefault("input", form) != form:
+            raise Untranslatable("%s: the input mask is computed differently with and without keep_acs" % qual, None, path)
+        args = tgt[2]
+        elig = args[6] if filler == "gaussian_fill" else args[3]
+        want = m if keep else ("set", MASK, REGION, X.FALSE)
+        if elig != want:
+            raise Untranslatable("%s: the cells handed to %s are not the mask %s: %s" % (qual, filler, "minus the ACS" if keep else "with the protected region cleared", X.show(elig)[:120]), None, path)
+        d["region_cleared"] = "true"
+        dims = (("sub", ("attr", MASK, "shape"), X.const(0)), ("sub", ("attr", MASK, "shape"), X.const(1)))
+        if tuple(args[1:3]) != dims:
+            raise Untranslatable("%s: grid size handed to %s is not the mask's" % (qual, filler), None, path)
+        if filler == "gaussian_fill":
+            if tuple(args[3:6]) != (_half(0), _half(1), S("std_scale")):
+                raise Untranslatable("%s: centre / scale handed to gaussian_fill outside subset" % qual, None, path)
+            ceil_ = ("call", S("int"), (("call", S("ceil"), (("bin", "*", ("call", ("attr", m, "sum"), (), ()), RATIO),), ()),), ())
+            esum = ("call", ("attr", elig, "sum"), (), ())
+            room = [("bin", "-", ("call", S("int"), (esum,), ()), X.const(1)), ("bin", "-", esum, X.const(1))]
+            if args[0] == ceil_:
+                caps.add(False)
+            elif args[0][0] == "call" and args[0][1] == S("min") and len(args[0][2]) == 2 and ceil_ in args[0][2] and any(r_ in args[0][2] for r_ in room):
+                caps.add(True)
+            else:
+                raise Untranslatable("%s: count is not ceil(mask.sum() * ratio) [capped by the eligible cells - 1]: %s" % (qual, X.show(args[0])[:120]), None, path)
+        else:
+            cnt = ("call", S("int"), (("bin", "*", ("call", ("attr", S("torch"), "count_nonzero"), (("call", ("attr", elig, "flatten"), (), ()),), ()), RATIO),), ())
+            if args[0] != cnt or args[4:] != (("attr", ME, "rng"),):
+                raise Untranslatable("%s: count / generator handed to uniform_fill outside subset: %s" % (qual, X.show(args[0])[:120]), None, path)
     for k in ("minus_acs", "region_cleared", "keep_in", "keep_tg", "input"):
         if k not in d:
-            raise Untranslatable("%s: %s not found" % (name, k), fn.lineno, path)
-    # the eligible set must be derived from the (acs-reduced) mask: temp_mask = mask.clone()
-    if not any(s in ("temp_mask = mask.clone()", "temp_mask = mask.cpu().clone()") for s in srcs):
-        raise Untranslatable("%s: temp_mask is not a copy of mask" % name, fn.lineno, path)
-    return d, srcs, body
+            raise Untranslatable("%s: %s not found" % (qual, k), None, path)
+    if len(caps) > 1:
+        raise Untranslatable("%s: the count is capped on some paths only" % qual, None, path)
+    return d, (caps.pop() if caps else None)
 
 
 def generate(ctx):
+    """The cell algebra of the three splitters read off the value trees of a symbolic execution (vlib/symex.py)."""
     path = ctx.src("direct/ssl/ssl.py")
     tree, _ = pg.parse_file(path)
     out = ""
+    sigs = {"minus_acs": "(m a : bool)", "input": "(m t : bool)", "keep_in": "(i a : bool)", "keep_tg": "(t a : bool)"}
     # ---- gaussian ----
-    fn = pg.find_def(tree, "MaskSplitter._gaussian_split", path)
-    d, srcs, body = _split_common(fn, path, "_gaussian_split")
+    d, capped = _fill_split(tree, path, "MaskSplitter._gaussian_split", "gaussian_fill")
     for k in ("minus_acs", "input", "keep_in", "keep_tg"):
-        sig = {"minus_acs": "(m a : bool)", "input": "(m t : bool)", "keep_in": "(i a : bool)", "keep_tg": "(t a : bool)"}[k]
-        out += "Definition g_%s %s : bool := %s.\n" % (k, sig, d[k])
-    joined = "\n".join(srcs)
-    if "nonzero_mask_count = int(ceil(mask.sum() * self._choose_ratio()))" not in joined:
-        raise Untranslatable("_gaussian_split: count expression outside subset", fn.lineno, path)
-    capped = None
-    for s in srcs:
-        if s.startswith("nonzero_mask_count = min("):
-            t = s.replace(" ", "")
-            if t in ("nonzero_mask_count=min(nonzero_mask_count,int(temp_mask.sum())-1)", "nonzero_mask_count=min(nonzero_mask_count,temp_mask.sum()-1)", "nonzero_mask_count=min(int(temp_mask.sum())-1,nonzero_mask_count)"):
-                capped = True
-            else:
-                raise Untranslatable("_gaussian_split: unrecognised cap %s" % s, fn.lineno, path)
-    # the cap must come after the protected region was cleared and before the fill
-    if capped:
-        i_cap = max(i for i, s in enumerate(srcs) if s.startswith("nonzero_mask_count = min("))
-        i_reg = max(i for i, s in enumerate(srcs) if s.startswith("if not self.keep_acs:"))
-        i_fill = max(i for i, s in enumerate(srcs) if "gaussian_fill(" in s)
-        if not (i_reg < i_cap < i_fill):
-            raise Untranslatable("_gaussian_split: cap is not between region clearing and fill", fn.lineno, path)
+        out += "Definition g_%s %s : bool := %s.\n" % (k, sigs[k], d[k])
     ceil_e = "(- ((- (msum * p)) / q))"
     out += "Definition g_count (msum ecount p q : Z) : Z := %s.\n" % ("Z.min %s (ecount - 1)" % ceil_e if capped else ceil_e)
-    fill = [s for s in body if "gaussian_fill(" in ast.unparse(s)]
-    if len(fill) != 1 or "temp_mask.cpu().numpy().astype(int)" not in ast.unparse(fill[0]) or "nonzero_mask_count, nrow, ncol, center_x, center_y, std_scale" not in ast.unparse(fill[0]):
-        raise Untranslatable("_gaussian_split: fill call outside subset", fn.lineno, path)
     import re
 
     txt = open(ctx.src("direct/ssl/_gaussian_fill.pyx")).read()
@@ -107,34 +141,73 @@ def generate(ctx):
         raise Untranslatable("_gaussian_fill.pyx: loop outside subset", None, "direct/ssl/_gaussian_fill.pyx")
     out += "Definition g_need (c : Z) : Z := %s.\n" % ("c + 1" if cond.group(1) == "<=" else "c")
     # ---- uniform ----
-    fn = pg.find_def(tree, "MaskSplitter._uniform_split", path)
-    d, srcs, body = _split_common(fn, path, "_uniform_split")
+    d, _c = _fill_split(tree, path, "MaskSplitter._uniform_split", "uniform_fill")
     for k in ("minus_acs", "input", "keep_in", "keep_tg"):
-        sig = {"minus_acs": "(m a : bool)", "input": "(m t : bool)", "keep_in": "(i a : bool)", "keep_tg": "(t a : bool)"}[k]
-        out += "Definition u_%s %s : bool := %s.\n" % (k, sig, d[k])
-    if "uniform_fill(int(torch.count_nonzero(temp_mask.flatten()) * self._choose_ratio()), nrow, ncol, temp_mask.cpu(), self.rng)" not in "\n".join(srcs):
-        raise Untranslatable("_uniform_split: fill call outside subset", fn.lineno, path)
+        out += "Definition u_%s %s : bool := %s.\n" % (k, sigs[k], d[k])
     out += "Definition u_count (ecount p q : Z) : Z := (ecount * p) / q.\n"
-    # ---- half: which statements exist ----
-    fn = pg.find_def(tree, "MaskSplitter._half_split", path)
-    src = ast.unparse(fn)
-    want = [
-        "input_mask[:center_x] = mask[:center_x]", "target_mask[center_x:] = mask[center_x:]",
-        "input_mask[:, :center_y] = mask[:, :center_y]", "target_mask[:, center_y:] = mask[:, center_y:]",
-        "input_mask = mask * (xv + yv <= 0)", "target_mask = mask * (xv + yv > 0)", "input_mask = mask * (xv - yv <= 0)", "target_mask = mask * (xv - yv > 0)",
-    ]
-    if any(w not in src for w in want):
-        raise Untranslatable("_half_split: side assignments outside subset", fn.lineno, path)
-    honours = "input_mask[acs_rows, acs_cols] = mask[acs_rows, acs_cols]" in src and "target_mask[acs_rows, acs_cols] = False" in src
+    # ---- half: two complementary sides of the mask; the protected region goes to the input mask only ----
+    t, _n = X.run_function(tree, path, "MaskSplitter._half_split")
+    t = X.lift_ife(X.prune_raises(X.drop_do(t)))
+    honours = set()
+    zeros = ("call", ("attr", S("torch"), "zeros_like"), (MASK,), (("dtype", ("attr", MASK, "dtype")), ("device", ("attr", MASK, "device"))))
+    zeros_alt = ("call", ("attr", S("torch"), "zeros_like"), (MASK,), ())
+    nleaves = 0
+    for conds, lf in X.leaves(t):
+        keep = _keep_of(conds, "_half_split", path)
+        v = deep(lf[1])
+        if not (v[0] == "tuple" and len(v[1]) == 2):
+            raise Untranslatable("_half_split: does not return (input mask, target mask)", None, path)
+        inp, tgt = v[1]
+        nleaves += 1
+        if keep:
+            if not (inp[0] == "bin" and inp[1] == "|" and inp[3] == ACS and tgt[0] == "bin" and tgt[1] == "|" and tgt[3] == ACS):
+                raise Untranslatable("_half_split: keep_acs statement outside subset", None, path)
+            inp, tgt = inp[2], tgt[2]
+        else:
+            hon = inp[0] == "set" and inp[2] == REGION and inp[3] == ("sub", MASK, REGION) and tgt[0] == "set" and tgt[2] == REGION and tgt[3] == X.FALSE
+            honours.add(hon)
+            if hon:
+                inp, tgt = inp[1], tgt[1]
+        # the two sides: slices of the mask copied into zeros below / from the centre line, or the mask times a half plane
+        ok = False
+        if inp[0] == "set" and tgt[0] == "set" and inp[1] in (zeros, zeros_alt) and tgt[1] in (zeros, zeros_alt):
+            for ax in (0, 1):
+                lo = ("slice", X.NONE, _half(ax), X.NONE)
+                hi = ("slice", _half(ax), X.NONE, X.NONE)
+                if ax == 1:
+                    lo, hi = ("tuple", (("slice", X.NONE, X.NONE, X.NONE), lo)), ("tuple", (("slice", X.NONE, X.NONE, X.NONE), hi))
+                if inp[2] == lo and inp[3] == ("sub", MASK, lo) and tgt[2] == hi and tgt[3] == ("sub", MASK, hi):
+                    ok = True
+        elif inp[0] == "bin" and inp[1] == "*" and inp[2] == MASK and tgt[0] == "bin" and tgt[1] == "*" and tgt[2] == MASK:
+            a_, b_ = inp[3], tgt[3]
+            ok = a_[0] == "cmp" and b_[0] == "cmp" and a_[1] == "<=" and b_[1] == ">" and a_[2] == b_[2] and a_[3] == b_[3] == X.const(0)
+        if not ok:
+            raise Untranslatable("_half_split: side assignments outside subset: %s" % X.show(inp)[:120], None, path)
+    if nleaves < 8 or len(honours) != 1:
+        raise Untranslatable("_half_split: expected four directions with and without keep_acs, treating the protected region alike", None, path)
+    honours = honours.pop()
     out += "Definition half_honours_region : bool := %s.\n" % ("true" if honours else "false")
     out += "Definition h_input (m side inregion : bool) : bool := %s.\n" % ("if inregion then m else andb m side" if honours else "andb m side")
     out += "Definition h_target (m side inregion : bool) : bool := %s.\n" % ("if inregion then false else andb m (negb side)" if honours else "andb m (negb side)")
-    if "input_mask, target_mask = (input_mask | acs_mask, target_mask | acs_mask)" not in src:
-        raise Untranslatable("_half_split: keep_acs statement outside subset", fn.lineno, path)
     # ---- forward: per-sample seed ----
-    fn = pg.find_def(tree, "MaskSplitter.forward", path)
-    src = ast.unparse(fn)
-    seeded = "None if not self.use_seed else tuple(map(ord, str(sample['filename'][_]) + str(sample['slice_no'][_])))" in src
+    hits, stopped = X.watch_calls(tree, path, "MaskSplitter.forward", ["split_method"])
+    seeds = set()
+    for conds, args, kw in hits["split_method"]:
+        sd = dict(kw).get("seed", args[2] if len(args) > 2 else None)
+        seeds.add(X.show(sd) if sd is not None else "missing")
+    idx = lambda k_: "sample['%s'][bv1]" % k_
+    chars = "[ord(bv2) for bv in (str(%s) + str(%s))]" % (idx("filename"), idx("slice_no"))  # tuple(map(ord, s)) / tuple(ord(c) for c in s)
+    want_forms = {"(%s if self.use_seed else None)" % chars}
+    seeded = bool(seeds) and all(sd in want_forms for sd in seeds)
+    if not seeded:
+        # decided on the path instead of inside the expression
+        ok = bool(hits["split_method"])
+        for conds, args, kw in hits["split_method"]:
+            sd = dict(kw).get("seed", args[2] if len(args) > 2 else None)
+            use = [pol for c, pol in conds if c == ("attr", ME, "use_seed")]
+            txt_ = X.show(sd) if sd is not None else ""
+            ok = ok and ((use == [True] and txt_ == chars) or (use == [False] and sd == X.NONE))
+        seeded = ok
     out += "Definition seed_from_filename_and_slice : bool := %s.\n" % ("true" if seeded else "false")
     return [pg.write_gen(ctx, "C11_gen", out)]
 
